@@ -329,27 +329,16 @@ def cached_sweep(model: SrcModel, tier: str):
         trees += [t for t in enumerate_trees(3, ("1", "2", "501", "901")) if t not in seen]
     else:
         trees = enumerate_trees(bound, leaves)
-    cache_dir = Path(__file__).resolve().parent.parent / ".cache"
-    path = cache_dir / f"rcsweep-{tier}-{source_digest(model)}.json"
-    if path.exists() and not os.environ.get("VSTAT_NO_CACHE"):
-        try:
-            doc = json.loads(path.read_text())
-            return doc["trees"], doc["evaluations"], [tuple(p) for p in doc["problems"]], doc["errors"], doc["samples"]
-        except (ValueError, KeyError):
-            pass
-    res = sweep(model, trees)
-    problems = [p for _, ps, _ in res for p in ps]
-    errors = sorted({err for _, _, err in res if err})
-    evaluations = sum(len(rc_assignments(e)) * (1 + 2 ** len({k for k in refsem.keys_of(e) if refsem.key_kind(k) == "fc"})) for e in trees)
-    samples = [refsem.unparse(e) for e in trees[:: max(1, len(trees) // 12)]][:12]
-    try:
-        cache_dir.mkdir(exist_ok=True)
-        for old in sorted(cache_dir.glob(f"rcsweep-{tier}-*.json"))[:-3]:
-            old.unlink()
-        path.write_text(json.dumps({"trees": len(trees), "evaluations": evaluations, "problems": problems, "errors": errors, "samples": samples}))
-    except OSError:
-        pass
-    return len(trees), evaluations, problems, errors, samples
+    def compute():
+        res = sweep(model, trees)
+        problems = [list(p) for _, ps, _ in res for p in ps]
+        errors = sorted({err for _, _, err in res if err})
+        evaluations = sum(len(rc_assignments(e)) * (1 + 2 ** len({k for k in refsem.keys_of(e) if refsem.key_kind(k) == "fc"})) for e in trees)
+        samples = [refsem.unparse(e) for e in trees[:: max(1, len(trees) // 12)]][:12]
+        return {"trees": len(trees), "evaluations": evaluations, "problems": problems, "errors": errors, "samples": samples}
+
+    doc = disk_cached(model, f"rcsweep-{tier}", compute)
+    return doc["trees"], doc["evaluations"], [tuple(p) for p in doc["problems"]], doc["errors"], doc["samples"]
 
 
 def report_sweep(ctx, rule_prefixes: Tuple[str, ...], file: str) -> None:
@@ -371,6 +360,7 @@ def report_sweep(ctx, rule_prefixes: Tuple[str, ...], file: str) -> None:
         ctx.discharged += n_trees - len(bad)
         ctx.rules_run[rule] = ctx.rules_run.get(rule, 0) + n_trees
         ctx.nontrivial_keys.add(f"{rule}::sweep")
+        ctx.bulk_distinct += max(0, n_trees - 1)
     for (rule, key), msgs in sorted(by_key.items())[:25]:
         ctx.ob(rule, key, False, msgs[0] + (f" (+{len(msgs) - 1} more assignments)" if len(msgs) > 1 else ""), file=file)
     for s in samples:
